@@ -71,7 +71,7 @@ def generate(seed, tier, k):
         else:
             a["grad_v"] = r.random() < 0.6
             a["grad_u"] = r.random() < 0.6
-        a["broadcast"] = bool(doc["region"].get("uniform")) and r.random() < 0.5
+        a["broadcast"] = bool(doc["region"].get("uniform")) and r.random() < 0.3
         a["out_reuse"] = r.random() < 0.3 and fk != "Axi" and not fk.endswith("axi")
         a["values_passthrough"] = r.random() < 0.2
         a["pools"] = []
@@ -84,7 +84,7 @@ def generate(seed, tier, k):
         # reloaded region, the other field objects of the container are kept
         # integrands far from order one (another unit system)
         a["mag"] = r.choice([1.0, 1.0, 1.0, 1e-12, 1e-9, 1e6])
-        a["geometry_update"] = r.random() < (0.5 if fk.endswith("axi") else 0.2) and not doc["region"].get("uniform")
+        a["geometry_update"] = r.random() < (0.5 if fk.endswith("axi") else (0.9 if doc["region"].get("uniform") else 0.2))
         a["geometry_seed"] = r.randrange(1 << 30)
         doc["array"] = a
     else:
@@ -104,7 +104,7 @@ def generate(seed, tier, k):
         f["basis_parallel"] = r.random() < 0.3
         # history on one Form object: the region is reloaded in place (mesh.update + region.reload)
         # and the same form is assembled again with the same field container
-        f["reload"] = r.random() < 0.3 and not doc["region"].get("uniform") and fk != "Mixed2"
+        f["reload"] = r.random() < (0.8 if doc["region"].get("uniform") else 0.3) and fk != "Mixed2"
         f["reload_seed"] = r.randrange(1 << 30)
         if r.random() < 0.2:
             f["fail_call"] = r.randrange(0, 6)
@@ -342,6 +342,7 @@ def run_array(doc, log):
         mesh.update(points=newp, callback=region.reload)
         if np.any(region.dV <= 0):
             raise Discard("invalid-mesh-after-reload")
+        check_reloaded_region(region, mesh, log)
         f0 = fields[0]
         new0 = type(f0)(region, dim=f0.dim, values=f0.values.copy())
         cont2 = fem.FieldContainer([new0, *fields[1:]])
@@ -373,6 +374,26 @@ def run_array(doc, log):
 
 # ----------------------------------------------------------------------------------------
 # weak forms (their code objects get LINE yield points)
+
+def check_reloaded_region(region, mesh, log, kw=None):
+    """A region reloaded in place on a changed mesh (reload() called as a callback, without repeating
+    the construction options) holds the arrays of a newly created region on that mesh. A region that
+    was created for a uniform grid evaluates all cells again after the reload (the documented
+    default uniform=None -> False)."""
+    import warnings
+
+    with warnings.catch_warnings():
+        warnings.simplefilter("ignore")
+        fresh = type(region)(mesh, **(kw or {}))
+    for name in ("dV", "dhdX", "h"):
+        a, b_ = getattr(region, name, None), getattr(fresh, name, None)
+        if a is None or b_ is None:
+            continue
+        a, b_ = np.asarray(a), np.asarray(b_)
+        if a.shape != b_.shape or not np.allclose(a, b_, rtol=1e-12, atol=1e-14 * (float(np.abs(b_).max()) + 1e-300)):
+            raise Violation(PROP, "ref-sum", f"region reloaded in place: {name} has shape {a.shape}, a region created on the same mesh has {b_.shape}" + ("" if a.shape != b_.shape else " and other values"), site=f"Region.reload.{name}")
+    log.count("reloaded-region-compared")
+
 # ----------------------------------------------------------------------------------------
 class CallCounter:
     def __init__(self, fail_call=None, fail_kind="error"):
@@ -724,6 +745,7 @@ def run_form(doc, log):
         mesh.update(points=newp, callback=region.reload)
         if np.any(region.dV <= 0):
             raise Discard("invalid-mesh-after-reload")
+        check_reloaded_region(region, mesh, log, {"hess": True} if f.get("kind") == "hess" else None)
         ref2 = reference()
         scale2 = float(np.abs(ref2).max()) + 1e-300
         again = dense(frm.assemble(v=field, **({"u": field} if bil else {}), parallel=False, **akw))
